@@ -155,11 +155,12 @@ impl DateTime<Utc> {
 //@expect fn try_from(time: crate::Instant) -> Result<Self, Self::Error>
 //@sig fn datetime_try_from_instant(time: Instant) -> (r: Result<DateTime<Utc>, TimeError>)
 //@contract
-    requires
-        time.nanos < 1_000_000_000, // the type's invariant (Instant::new enforces it)
+    // no precondition: `Instant::new` enforces nanos < 10^9, the derived Deserialize does not, and
+    // the property quantifies over every (seconds, nanos) pair
     ensures
         r is Ok ==> dt_secs(r->Ok_0) == time.seconds as int && dt_subsec(r->Ok_0) == time.nanos as int, // [C19/chrono/Instant->DateTime/exact-or-rejected]
-        r is Err ==> time.seconds as int > i64::MAX as int || !dt_in_range(time.seconds as int), // [C19/chrono/Instant->DateTime/no-spurious-rejection]
+        time.nanos >= 1_000_000_000 ==> r is Err, // [C19/chrono/Instant->DateTime/an-invalid-sub-second-part-is-rejected-explicitly]
+        r is Err ==> time.seconds as int > i64::MAX as int || !dt_in_range(time.seconds as int) || time.nanos >= 1_000_000_000, // [C19/chrono/Instant->DateTime/no-spurious-rejection]
 //@rule X8.closure-wildcard * s/\|_\|/|_e|/
 //@end
 
